@@ -222,7 +222,7 @@ def run_tlc(main, cfg=None, files=None, workers=None, timeout=300, env=None,
             i = errs[0]
             txt = "\n".join(lines[i:i + 12])
             l0 = lines[i]
-            if ("is violated" in l0 or "Assumption" in l0 or "Temporal properties were violated" in l0
+            if ("is violated" in l0 or "Assumption" in l0 or "Temporal properties were violated" in l0 or "Temporal property" in l0
                     or "Deadlock reached" in l0 or "ostcondition" in l0 or "Action property" in l0):
                 r.violation = txt
             else:
